@@ -71,3 +71,14 @@ def set_arrival_order(finding, replay, facts):
 
 
 MATCHERS['set_arrival_order'] = set_arrival_order
+
+
+def sticky_parser_mode(finding, replay, facts):
+  """C13: only the parser-mode kernel, and only when the difference is reproduced end to end
+  with the incantation program in between."""
+  return (replay.get('kernel') == 'k_call_parse_mode_free'
+          and replay.get('sql_before') != replay.get('sql_after_incantation_program')
+          and replay.get('op') in ('*', '/', '%', '^'))
+
+
+MATCHERS['sticky_parser_mode'] = sticky_parser_mode
